@@ -75,7 +75,7 @@ def emit_term(repo: Repo, ci: ClassInfo, fn: FunctionInfo) -> Term:
             raise AnalysisError(f"{fn.where}: bare return in emit")
         terms.add(bytes_term(repo, ci, fn, inline(r.value, env)))
     if len(terms) != 1:
-        raise AnalysisError(f"{fn.where}: returns of differing length terms {sorted(map(str, terms))}")
+        return Term("multi", tuple(sorted(map(str, terms))))
     return terms.pop()
 
 
@@ -113,7 +113,7 @@ def advance_term(fn: FunctionInfo) -> Term:
         else:
             raise AnalysisError(f"{fn.where}: pc_after returns `{unparse(e)[:70]}`, not modelled")
     if len(terms) != 1:
-        raise AnalysisError(f"{fn.where}: returns of differing advance terms {sorted(map(str, terms))}")
+        return Term("multi", tuple(sorted(map(str, terms))))
     return terms.pop()
 
 
